@@ -227,6 +227,16 @@ def _output(built, case, op):
                           if os.path.exists(os.path.join(d, "x_%d.csv" % k))]
     tabs = []
     for tb in op.get("tabs", []):
+        if isinstance(tb.get("trials"), dict):           # symbolic selection, resolved against the real length
+            import random as _r
+            n = len(next(iter(exps[0].values()))) if exps else 0
+            rr = _r.Random(tb["trials"]["seed"])
+            if n == 0:
+                tb = dict(tb, trials=None)
+            elif tb["trials"]["kind"] == "prefix":
+                tb = dict(tb, trials=list(range(0, max(1, n // 2))))
+            else:
+                tb = dict(tb, trials=[rr.randrange(0, n) for _ in range(rr.randrange(1, n + 2))])
         facs = [objs[k - 1] for k in tb["factors"]] if tb.get("factors") else None
         with ir.quiet() as buf:
             if facs is None:
